@@ -641,6 +641,7 @@ struct Meta {
     faults: Vec<&'static str>,
     requires: usize,
     progen_bodies: usize,
+    statementless: usize,
     avoided: usize,
 }
 
@@ -922,6 +923,12 @@ fn gen_case(t: &mut Tape, g: &GenCfg) -> (Case, Meta) {
             broken_syntax(t, id, &path).into_bytes()
         } else if fault[i] == Some("invalid_utf8") {
             invalid_utf8(t, id)
+        } else if fault[i].is_none() && t.bool(14) {
+            // a healthy file without a single statement (empty, blank, comments only): it still has
+            // exactly one output; nothing can require it
+            broken[i] = true;
+            meta.statementless += 1;
+            t.pick(&["", "\n", "-- only a comment\n", "--[[ nothing here ]]", "  \n\t\n", "--!strict\n-- todo\n"]).as_bytes().to_vec()
         } else {
             let mut requires: Vec<String> = vec![];
             let dir = parent(&path).to_string();
@@ -1064,6 +1071,7 @@ fn classify(case: &Case, meta: &Meta, st: &mut Stats) {
     }
     st.class_n("require_calls", meta.requires as u64);
     st.class_n("progen_bodies", meta.progen_bodies as u64);
+    st.class_n("files_without_statement", meta.statementless as u64);
     if meta.avoided > 0 {
         st.class("avoided:inplace-bundle-order");
     }
